@@ -64,6 +64,7 @@ type Unit struct {
 	entryLocks int
 	sliceArr  map[string]string // named slice term -> its backing array term
 	arrayOfCache map[string]T
+	defOf     map[string]string // bound name -> defining term
 }
 
 const maxPaths = 6000
@@ -240,6 +241,7 @@ func (u *Unit) promoteCell(s *State, c *Cell) T {
 	}
 	c.promoted = &r
 	delete(s.cells, c)
+	u.eng.iptrs[r.S] = &Ptr{kind: pDeref, base: r, rtyp: c.typ, typ: c.typ}
 	return r
 }
 
@@ -1396,6 +1398,7 @@ func (u *Unit) bind(st *State, t T, hint string) T {
 	}
 	c := u.fresh("v."+hint, t.Sort)
 	st.assumeDef(Eq(c, t))
+	u.defOf[c.S] = t.S
 	if tag, ok := u.eng.prov[t.S]; ok {
 		u.eng.prov[c.S] = tag
 	}
